@@ -747,8 +747,10 @@ func (g *Geo) SubnetByLocation(l *geoip.Location, fam netutil.AddrFamily) (netip
 	}
 	g.mu.RLock()
 	defer g.mu.RUnlock()
+	// Like geoip.File: an unspecified (zero) prefix of the family when there is
+	// no subnet for the location.
 	if l == nil {
-		return netip.Prefix{}, nil
+		return netutil.ZeroPrefix(fam), nil
 	}
 	if p, ok := g.subnets[subnetKey(l.Country, "", l.ASN, f)]; ok {
 		return p, nil
@@ -756,7 +758,7 @@ func (g *Geo) SubnetByLocation(l *geoip.Location, fam netutil.AddrFamily) (netip
 	if p, ok := g.subnets[subnetKey(l.Country, "", 0, f)]; ok {
 		return p, nil
 	}
-	return netip.Prefix{}, nil
+	return netutil.ZeroPrefix(fam), nil
 }
 
 // ---- profile database fake ----
